@@ -18,6 +18,7 @@ import os
 
 from . import hirq as H
 from .appendchain import Chain
+from . import oblig_rules as OR
 from .pathcond import TooManyPaths
 from .engine import VERIF
 
@@ -182,3 +183,6 @@ def run(ctx):
             args = [x.get("path") for x in (al or {}).get("args", [])]
             ctx.oblige("C07|flavour|" + alias, al is not None and args == [a_ty, e_ty], "%s is instantiated with %s" % (alias, args), cfg=cfg)
         ctx.floor("append sites", n_sites, 3, cfg=cfg)
+        # "never panics": obligations in the /repo instances reachable from both flavours of AuthenticatorData::serialize
+        for alias in ("ctap2::make_credential::AuthenticatorData", "ctap2::get_assertion::AuthenticatorData"):
+            OR.check_root(ctx, F, cfg, "C07", AD + "@alias:" + alias, what="while serialising authenticator data")
